@@ -12,6 +12,8 @@ import (
 	"go/ast"
 	"go/token"
 	"go/types"
+	"sort"
+	"strings"
 )
 
 func (p *Program) buildAliases() {
@@ -22,11 +24,16 @@ func (p *Program) buildAliases() {
 	for _, l := range libPkgs {
 		lib[l] = true
 	}
+	p.buildRenames()
+	renamedTo := map[string]bool{}
+	for _, n := range p.RenamedFunc {
+		renamedTo[n] = true
+	}
 	for _, fi := range p.Funcs {
 		if !lib[shortPkg(fi.Pkg.PkgPath)] {
 			continue
 		}
-		if !knownFuncs[fi.Name] && !fi.Obj.Exported() && fi.Decl.Body != nil {
+		if !knownFuncs[fi.Name] && !fi.Obj.Exported() && fi.Decl.Body != nil && !renamedTo[fi.Name] {
 			p.NewFuncs[fi.Obj] = true
 		}
 	}
@@ -279,4 +286,129 @@ func inlinePosition(stack []ast.Node) bool {
 		}
 	}
 	return false
+}
+
+// structFields lists "pkg.Type.field\ttype" for every field of every struct type of the library packages.
+func (p *Program) structFields() []string {
+	var out []string
+	for _, rel := range libPkgs {
+		pk := p.Pkgs[rel]
+		if pk == nil {
+			continue
+		}
+		sc := pk.Types.Scope()
+		for _, n := range sc.Names() {
+			tn, ok := sc.Lookup(n).(*types.TypeName)
+			if !ok {
+				continue
+			}
+			st, ok := tn.Type().Underlying().(*types.Struct)
+			if !ok {
+				continue
+			}
+			for i := 0; i < st.NumFields(); i++ {
+				f := st.Field(i)
+				out = append(out, rel+"."+n+"."+f.Name()+"\t"+types.TypeString(f.Type(), func(q *types.Package) string { return q.Name() }))
+			}
+		}
+	}
+	return out
+}
+
+// sigString renders a function's parameter and result types (no names, receiver excluded).
+func sigString(f *types.Func) string {
+	sig := f.Type().(*types.Signature)
+	q := func(p *types.Package) string { return p.Name() }
+	var sb strings.Builder
+	sb.WriteString("(")
+	for i := 0; i < sig.Params().Len(); i++ {
+		if i > 0 {
+			sb.WriteString(", ")
+		}
+		if sig.Variadic() && i == sig.Params().Len()-1 {
+			sb.WriteString("...")
+		}
+		sb.WriteString(types.TypeString(sig.Params().At(i).Type(), q))
+	}
+	sb.WriteString(") (")
+	for i := 0; i < sig.Results().Len(); i++ {
+		if i > 0 {
+			sb.WriteString(", ")
+		}
+		sb.WriteString(types.TypeString(sig.Results().At(i).Type(), q))
+	}
+	sb.WriteString(")")
+	return sb.String()
+}
+
+// buildRenames: a listed function (field) that is gone and has exactly one unlisted replacement with the same
+// receiver (struct) and the same signature (type) was renamed; lookups by the old name resolve to the new object.
+func (p *Program) buildRenames() {
+	p.RenamedFunc = map[string]string{}
+	p.RenamedField = map[string]*types.Var{}
+	prefix := func(name string) string {
+		if i := strings.LastIndex(name, "."); i >= 0 {
+			return name[:i]
+		}
+		return name
+	}
+	var olds []string
+	for n := range knownFuncs {
+		if p.Funcs[n] == nil {
+			olds = append(olds, n)
+		}
+	}
+	sort.Strings(olds)
+	taken := map[string]bool{}
+	for _, old := range olds {
+		var cands []string
+		for n, fi := range p.Funcs {
+			if knownFuncs[n] || taken[n] || prefix(n) != prefix(old) || fi.Obj.Exported() != ast.IsExported(old[strings.LastIndex(old, ".")+1:]) {
+				continue
+			}
+			if sigString(fi.Obj) == knownFuncSigs[old] {
+				cands = append(cands, n)
+			}
+		}
+		if len(cands) == 1 {
+			p.RenamedFunc[old] = cands[0]
+			taken[cands[0]] = true
+		}
+	}
+	var oldf []string
+	for k := range knownFields {
+		oldf = append(oldf, k)
+	}
+	sort.Strings(oldf)
+	for _, k := range oldf {
+		parts := strings.Split(k, ".")
+		if len(parts) < 3 {
+			continue
+		}
+		field := parts[len(parts)-1]
+		typ := parts[len(parts)-2]
+		pkg := strings.Join(parts[:len(parts)-2], ".")
+		n := p.Named(pkg, typ)
+		if n == nil {
+			continue
+		}
+		st, ok := n.Underlying().(*types.Struct)
+		if !ok {
+			continue
+		}
+		present := false
+		var cands []*types.Var
+		for i := 0; i < st.NumFields(); i++ {
+			f := st.Field(i)
+			if f.Name() == field {
+				present = true
+			}
+			if _, known := knownFields[pkg+"."+typ+"."+f.Name()]; !known && types.TypeString(f.Type(), func(q *types.Package) string { return q.Name() }) == knownFields[k] {
+				cands = append(cands, f)
+			}
+		}
+		if !present && len(cands) == 1 {
+			p.RenamedField[k] = cands[0]
+		}
+	}
 }
